@@ -112,6 +112,8 @@ class Arr2(Stub):
             return self.rows[k[0]][k[1]]
         if self._rowlist(k):                      # bounds[[rows], col]: that column of those rows
             return Vec([self.rows[i][k[1]] for i in k[0]])
+        if isinstance(k, (list, Vec)) and all(isinstance(x, int) and not isinstance(x, bool) for x in k):
+            return Arr2([self.rows[i] for i in k])          # bounds[[rows]]: a copy of those rows (NumPy fancy indexing copies)
         raise Unsupported("bounds[...] with a key other than a row number or (row, column)")
 
     def __setitem__(self, k, v):
@@ -119,6 +121,12 @@ class Arr2(Stub):
             self.rows[k] = list(v)
         elif isinstance(k, tuple) and len(k) == 2 and all(isinstance(x, int) for x in k):
             self.rows[k[0]][k[1]] = v
+        elif isinstance(k, (list, Vec)) and all(isinstance(x, int) and not isinstance(x, bool) for x in k):
+            rows_ = v.rows if isinstance(v, Arr2) else [list(r_) for r_ in v]
+            if len(rows_) != len(list(k)):
+                raise Unsupported("bounds[[rows]] = ... with a value of another length")
+            for i, r_ in zip(k, rows_):
+                self.rows[i] = list(r_)
         elif self._rowlist(k):
             vals = list(v) if isinstance(v, (Vec, list)) else [v] * len(list(k[0]))
             if len(vals) != len(list(k[0])):
@@ -150,6 +158,8 @@ class _NPb(Stub):
 
     @staticmethod
     def array(x, **k):
+        if isinstance(x, Arr2):
+            return Arr2(x.rows)
         return Arr2(x) if isinstance(x, list) and x and isinstance(x[0], list) else x
 
     @staticmethod
@@ -170,10 +180,12 @@ class _NPb(Stub):
         return max(a, b)
 
     @staticmethod
-    def clip(x, lo, hi):
+    def clip(x, lo, hi=None):
         if isinstance(x, Vec):
             return x.clip(lo, hi)
-        raise Unsupported("np.clip of something that is not a vector")
+        if isinstance(x, Arr2):
+            return Arr2([Vec(r_).clip(lo, hi).xs for r_ in x.rows])
+        raise Unsupported("np.clip of something that is neither a vector nor a bounds table")
 
 
 def _fix_identical(b):
